@@ -4,9 +4,10 @@ use crate::bbs::*;
 use crate::engine::*;
 use crate::gen::*;
 use crate::props::c04::scalar_from_seed;
-use crate::refimpl;
+use crate::refimpl::{self, Ref};
 use crate::with_suite;
-use bls12_381_plus::G2Projective;
+use bls12_381_plus::group::Curve;
+use bls12_381_plus::{G1Affine, G1Projective, G2Projective, Scalar};
 use proptest::prelude::*;
 use serde::{Deserialize, Serialize};
 use serde_json::{json, Value};
@@ -98,6 +99,10 @@ fn edits_of(b: &Option<Vec<u8>>, st: &mut u64) -> Vec<Option<Vec<u8>>> {
         x[p] ^= 1 << (splitmix(st) % 8);
         out.push(Some(x));
         out.push(None);
+        // same length, same FNV-1a-32 value (a cache keyed by a cheap fingerprint of the header)
+        if let Some(coll) = fnv1a32_collision(&hb, splitmix(st)) {
+            out.push(Some(coll));
+        }
     } else {
         out.push(Some(vec![0x55]));
     }
@@ -201,6 +206,55 @@ fn check_one<CS: BbsCiphersuite>(rep: &Report, ck: &str, c: &Case) -> CheckResul
         b[..48].iter_mut().for_each(|x| *x = 0);
         b[0] = 0xc0;
         cx.expect_reject("blind_sign", "identity-commitment-with-honest-proof-scalars", || signs(&b), || "".into())?;
+    }
+    // a commitment point outside the prime-order subgroup: C' = C + T with T = (0, 2) of order 3, and a proof
+    // assembled for it by the ordinary prover algorithm, repeated until the challenge is a multiple of 3 (then T*c
+    // vanishes from the verifier's recomputation).  Only the decoder's subgroup test stands in the way.
+    if c.seed % 2 == 0 {
+        let r = Ref::new(c.suite);
+        let apib = r.api_id_blind();
+        if let (Ok(bg), Ok(cms)) = (r.blind_generators(m + 1), r.msgs_to_scalars(&cm, &apib)) {
+            let mut tb = [0u8; 96];
+            tb[95] = 2;
+            if let Some(t3) = Option::<G1Affine>::from(G1Affine::from_uncompressed_unchecked(&tb)) {
+                let t3 = G1Projective::from(t3);
+                let spb = scalar_from_seed(&mut st);
+                let mut cpt = bg[0] * spb;
+                for i in 0..m {
+                    cpt += bg[1 + i] * cms[i];
+                }
+                let cprime = cpt + t3;
+                // the verifier subtracts C' * c either as a point negation (T*c must vanish: c = 0 mod 3) or as
+                // a multiplication by -c mod r (T*(r - c) must vanish: c = r mod 3); one crafted proof for each
+                let r_mod3 = hex::decode(GROUP_ORDER_HEX).unwrap().iter().map(|&b| b as u32).sum::<u32>() % 3;
+                let mut wanted: Vec<u32> = vec![0, r_mod3];
+                wanted.dedup();
+                for _try in 0..40 {
+                    if wanted.is_empty() {
+                        break;
+                    }
+                    let stl = scalar_from_seed(&mut st);
+                    let mts: Vec<Scalar> = (0..m).map(|_| scalar_from_seed(&mut st)).collect();
+                    let mut cbar = bg[0] * stl;
+                    for i in 0..m {
+                        cbar += bg[1 + i] * mts[i];
+                    }
+                    let Ok(ch) = r.blind_challenge(&cprime, &cbar, &bg, &apib) else { break };
+                    let cm3 = refimpl::scalar_bytes(&ch).iter().map(|&b| b as u32).sum::<u32>() % 3;
+                    if !wanted.contains(&cm3) {
+                        continue;
+                    }
+                    wanted.retain(|&w| w != cm3);
+                    let mut oct = cprime.to_affine().to_compressed().to_vec();
+                    oct.extend_from_slice(&refimpl::scalar_bytes(&(stl + spb * ch)));
+                    for i in 0..m {
+                        oct.extend_from_slice(&refimpl::scalar_bytes(&(mts[i] + cms[i] * ch)));
+                    }
+                    oct.extend_from_slice(&refimpl::scalar_bytes(&ch));
+                    cx.expect_reject("blind_sign", "commitment-point-outside-the-subgroup-with-ground-proof", || signs(&oct), || format!("C + (0, 2), M = {}, challenge = {} mod 3", m, cm3))?;
+                }
+            }
+        }
     }
     // whole-scalar truncations / extensions at every position (the empty string means "no commitment")
     let chunks = (cb.len() - 48) / 32;
@@ -558,7 +612,7 @@ pub fn run(ctx: &Ctx, rep: &Report) -> Meta {
                point/proof of different runs, proof for other messages, other suite, whole-scalar removal / duplication / insertion / truncation / extension at every position -> blind_sign must return Err; \
                group 2: single edits of committed messages, signer messages, boundary moves, blinding factor (other, None, one bit), header, pk, suite -> verify_blind_sign Err; \
                group 3: single edits of disclosed data of either kind, index moves, list shapes (surplus signer / committed message, surplus index, a never-signed entry under a repeated index before or after the genuine pair), L-1 / L+1 / None / L+M+1, header, ph, pk, proof bit flips, plain verifier, other suite -> blind_proof_verify Err; \
-               size sweep over every M in 4..=40 (quick) / 4..=130 (thorough) and 63..65, the sweep cases under contention, the point at infinity as commitment with made-up or honest response scalars, the just-accepted octets replayed to the other suite, a refused commitment presented again; a panic counts as not accepted here and is reported under C08; non-trivial = honest run with M >= 1 and all three groups executed"
+               size sweep over every M in 4..=40 (quick) / 4..=130 (thorough) and 63..65, the sweep cases under contention, the point at infinity as commitment with made-up or honest response scalars, a commitment point shifted by the order-3 point (0, 2) with a proof ground until its challenge is a multiple of 3, the just-accepted octets replayed to the other suite, a refused commitment presented again; a panic counts as not accepted here and is reported under C08; non-trivial = honest run with M >= 1 and all three groups executed"
             .into(),
         assumptions: vec!["accidental acceptance would need a hash collision or a discrete-log relation between generators".into()],
     }
